@@ -345,6 +345,9 @@ def part_npy_truncation(ctx, tmp):
                 if k < len(full) and obs[0][0] == 0:
                     ctx.disagree('part=npy_truncation;symptom=truncated_returned_as_data', case, show(obs[0]),
                                  show(exps[k][0][0]), 'a truncated chunk file was returned as data')
+                if k < len(full) and obs[0][0] == 1 and not is_notfound(obs[0][1]):
+                    ctx.disagree('store=npy;fault=truncation_offset_%s;symptom=raw_exception' % ('zero' if k == 0 else 'other'),
+                                 case, show(obs[0]), 'ChunkNotFound', 'a truncated chunk file is not reported as a missing chunk')
                 ctx.note_case(('npyT', dt, shape, direct, k), nontrivial=k < len(full),
                               sample=dict(case, outcome=[show(o) for o in obs]) if k == 9 and gi == 1 else None)
                 ctx.count('npy_truncation_offsets')
@@ -386,6 +389,11 @@ def part_npy_truncation(ctx, tmp):
     return files
 
 
+def is_notfound(i):
+    from katdal.chunkstore import ChunkNotFound
+    return i >= 0 and issubclass(classes()[i], ChunkNotFound)
+
+
 def is_chunkstore_error(i):
     from katdal.chunkstore import ChunkStoreError
     return i >= 0 and issubclass(classes()[i], ChunkStoreError)
@@ -423,6 +431,9 @@ def part_s3(ctx, files):
                 if k < len(full) and obs[0][0] == 0:
                     ctx.disagree('part=s3_truncation;symptom=truncated_returned_as_data', case, show(obs[0]),
                                  show(exps[k][1][0]), 'a truncated object was returned as data')
+                if k < len(full) and obs[0][0] == 1 and not is_notfound(obs[0][1]):
+                    ctx.disagree('store=s3;fault=truncation;symptom=not_reported_missing', case, show(obs[0]),
+                                 'a ChunkNotFound', 'a truncated object is not reported as a missing chunk')
                 ctx.note_case(('s3T', dt, shape, k), nontrivial=k < len(full),
                               sample=dict(case, outcome=[show(o) for o in obs]) if k == 40 and gi == 0 else None)
                 ctx.count('s3_truncation_offsets')
@@ -492,6 +503,35 @@ def part_s3(ctx, files):
 # ------------------------------------------------------------------------------------------------
 # part 3: dtype / shape mismatch matrix on the three back-ends
 
+def model_or_spec(ctx, case):
+    """ctx.model for one case, or -- while searching without a model binary -- the property's own answer."""
+    if ctx.model_ok:
+        return ctx.model([case])[0]
+    w = case[1]
+    bad = [1, IDX['K_BadChunk']]
+    if w[0] == 3 and w[2][0] == 0:
+        ok = w[2][1] and w[2][2]
+        return [[0, 0]] * 3 if ok else [bad] * 3
+    if w[0] == 3:
+        e = w[2][1]
+        nf = is_notfound(e)
+        return [[1, e], [0, 1] if nf else [1, e], [0, 2] if nf else [1, e]]
+    if w[0] == 7:
+        flags = []
+        for k, lo in w[2]:
+            if lo[0] == 0:
+                if not (lo[1] and lo[2]):
+                    return bad
+                flags.append(0)
+            elif lo[1] in (IDX['B_FileNotFoundError'], IDX['B_EOFError'], IDX['B_ValueError'], IDX['U_MaxRetryError'],
+                           IDX['K_S3ObjectNotFound'], IDX['B_IsADirectoryError']):
+                flags.append(1)
+            else:
+                return [1, lo[1]]
+        return [0, flags, int(any(flags))]
+    raise RuntimeError('no fallback')
+
+
 def part_mismatch(ctx, tmp):
     from katdal.chunkstore import npy_header_and_body
     from katdal.chunkstore_dict import DictChunkStore
@@ -529,7 +569,7 @@ def part_mismatch(ctx, tmp):
                         if sname == 'dict' and all(r <= s for r, s in zip(rshape, shape)):
                             s_ok = 1
                             stored_view = x[rsl]
-                        exp = ctx.model([[81, [3, sidx, [0, s_ok, dok]]]])[0]
+                        exp = model_or_spec(ctx, [81, [3, sidx, [0, s_ok, dok]]])
                         obs = three(store, nm, rsl, np.dtype(rdt), stored_view)
                         case = dict(part='mismatch', store=sname, stored=[dt, list(shape)], requested=[rdt, list(rshape)])
                         compare_three(ctx, 'mismatch', case, obs, exp,
@@ -664,7 +704,7 @@ def part_vfw(ctx, tmp):
 
     def check(case, res, arr, lowres, sidx, cell):
         arrays = [[int(a == 'flags'), (lowres if a == arr else [0, 1, 1])] for a in ARRAYS]
-        exp = ctx.model([[81, [7, sidx, arrays]]])[0]
+        exp = model_or_spec(ctx, [81, [7, sidx, arrays]])
         ctx.traces_validated += 1
         t0, f0 = cell
         region = (slice(2 * t0, 2 * t0 + 2), slice(2 * f0, 2 * f0 + 2))
@@ -798,7 +838,7 @@ def part_vfw(ctx, tmp):
         dead = s3_store('http://127.0.0.1:%d' % c08_s3fake.closed_port())
         res = run_load(vfw_for(dead))
         arrays = [[int(a == 'flags'), [1, IDX['R_ConnectionError']]] for a in ARRAYS]
-        exp = ctx.model([[81, [7, 3, arrays]]])[0]
+        exp = model_or_spec(ctx, [81, [7, 3, arrays]])
         ctx.traces_validated += 1
         if not (res[0] == 'raise' and exp[0] == 1 and issubclass(classes()[res[1]], classes()[IDX['K_StoreUnavailable']])):
             ctx.disagree('part=vfw;store=s3;fault=connection_refused;symptom=%s' % res[0], dict(part='vfw', store='s3', fault='connection_refused'),
@@ -966,7 +1006,14 @@ def part_put(ctx, tmp):
                 case = dict(part='put_fault', direct_write=direct, dtype=dt, shape=list(shape), op=k, syscall=sc,
                             inject=what, previous_chunk=with_old)
                 ctx.traces_validated += 1
-                if obs not in exps:
+                if low is not None:
+                    # after a FAILED call Python's buffered writer may retry the flush when the file is closed:
+                    # the temp file content is only required to be a prefix of what was to be written
+                    tmp_ok = (not tm) or bytes(tm[0]) == padded[:len(tm[0])]
+                    agree = tmp_ok and any(obs[:2] == e[:2] for e in exps)
+                else:
+                    agree = obs in exps
+                if not agree:
                     short = lambda t: [t[0], ['absent'] if not t[1] else [len(t[1][0])], ['absent'] if not t[2] else [len(t[2][0])]]   # noqa: E731
                     ctx.disagree('part=put_fault;direct=%s;syscall=%s;inject=%s;symptom=state' % (direct, sc, what.split('=')[1]), case,
                                  short(obs), [short(e) for e in exps],
@@ -1080,7 +1127,8 @@ def run_witness(ctx, w, tmp):
                          show(obs[0]), 'ChunkNotFound', 'a truncated chunk file surfaces as a raw (non chunk-store) exception')
         ctx.note_case(('witness', str(w)))
     elif kind == 'short_write':
-        part_short_write(ctx, tmp)
+        if ctx.model_ok:
+            part_short_write(ctx, tmp)
     elif kind in ('npy_zip', 'npy_eisdir'):
         d = tmp + '/w_' + kind
         os.makedirs(d + '/a', exist_ok=True)
@@ -1122,6 +1170,8 @@ def run_witness(ctx, w, tmp):
             srv.close()
     elif kind == 'put_enospc':
         part_put_single(ctx, tmp, w)
+    if kind == 'npy_truncation' and not ctx.model_ok:
+        return
 
 
 def part_put_single(ctx, tmp, w):
@@ -1189,8 +1239,12 @@ def search_without_model(ctx, tmp):
     d = tmp + '/nomodel'
     os.makedirs(d + '/a', exist_ok=True)
     store = NpyFileChunkStore(d)
+    part_mismatch(ctx, tmp)
+    part_vfw(ctx, tmp)
     for dt, shape in GEOMS_QUICK:
         x = make_chunk(dt, shape, 3)
+        if x.size == 0:
+            continue
         sl = tuple(slice(0, n) for n in shape)
         store.put_chunk('a', sl, x)
         fn = os.path.join(d, store.chunk_metadata('a', sl)[0]) + '.npy'
